@@ -292,7 +292,7 @@ def run_cdc(sc, lock_edges=0):
     state = dict(rgot=0, ucycles=0, scycles=0, done=False, timed_out=False, rin=0, win=0, wout=0, rmax=0, wmax=0, maxout=0)
     max_ucycles = sc.get("max_ucycles", 400 * len(plan) + 20000)
     stall_limit = sc.get("stall_limit", 6000)
-    state.update(nev=0, progress_at=0)
+    state.update(nev=0, progress_at=0, ndrop=0)
 
     def sample(port):
         return dict(cv=(yield port.cmd.valid), cr=(yield port.cmd.ready), cwe=(yield port.cmd.we), ca=(yield port.cmd.addr),
@@ -326,13 +326,15 @@ def run_cdc(sc, lock_edges=0):
             t = ref.now
             if s["rv"] and s["rr"]:
                 events.append((t, 3, dict(c="RDATA", s="m", d=tobytes(s["rd"], nb), t=t, uc=state["ucycles"])))
-            elif s["rv"] and strict:
+            elif s["rv"] and strict and state["ndrop"] < 40:         # (the first 40 are evidence enough)
+                state["ndrop"] += 1
                 events.append((t, 7, dict(c="RDROP", s="m", t=t, uc=state["ucycles"])))
             if s["cv"] and s["cr"]:
                 events.append((t, 4, dict(c="CMD", s="m", we=bool(s["cwe"]), a=s["ca"], last=s["cl"], t=t, uc=state["ucycles"])))
             if s["wv"] and s["wr"]:
                 events.append((t, 5, dict(c="WDATA", s="m", d=tobytes(s["wd"], nb), m=[(s["wm"] >> j) & 1 for j in range(nb)], t=t, uc=state["ucycles"])))
-            elif s["wr"] and strict:
+            elif s["wr"] and strict and state["ndrop"] < 40:
+                state["ndrop"] += 1
                 events.append((t, 7, dict(c="WDROP", s="m", t=t, uc=state["ucycles"])))
             if xb is not None:
                 xb.outstanding += int(bool(s["cv"] and s["cr"])) - int(bool(s["rv"])) - int(bool(s["wr"]))
@@ -355,7 +357,7 @@ def run_cdc(sc, lock_edges=0):
         ready = 1
         yield user.rdata.ready.eq(1)
         while True:
-            nev = len(events)
+            nev = len(events) - state["ndrop"]            # handshakes only: a stream of drop events is not progress
             if nev != state["nev"]:
                 state["nev"], state["progress_at"] = nev, state["ucycles"]
             if state["ucycles"] > max_ucycles or state["ucycles"] - state["progress_at"] > stall_limit:
@@ -463,7 +465,7 @@ def run_cdc(sc, lock_edges=0):
     events.sort(key=lambda e: (e[0], e[1]))
     evs = [e[2] for e in events]
     evs.append(dict(c="DUMP", n=mem.changed(), t=ref.now))
-    evs.append(dict(c="END", t=ref.now))
+    evs.append(dict(c="END", t=ref.now, planned=(len(plan) if not sc.get("replay") else 0)))
     for e in evs:
         e.setdefault("uc", state["ucycles"])
     exact = depths.pop("exact", True)
